@@ -219,3 +219,87 @@ def run(ctx, rep):
                 rep.violation("C15.3", cons, f"`{ast.unparse(inc)}` does not add exactly 1 to the bin of the readout's own integer value", f"{ar.path}:{inc.lineno}")
         else:
             rep.violation("C15.3", cons, "a readout is not recorded exactly once with exactly one bin increment", ar.loc())
+
+
+    # ------------------------------------------------------------ C15.5
+    rep.rule("C15.5", "the normalising divisor is the sum of the very values it divides", floor=1)
+    for c in ix.classes.values():
+        if c.module != RESULT:
+            continue
+        init = c.methods.get("__init__")
+        if init is None:
+            continue
+        stmts = list(iter_stmts(init.body))
+        for i, st in enumerate(stmts):
+            div = None
+            if isinstance(st, ast.AugAssign) and isinstance(st.op, ast.Div) and isinstance(st.target, ast.Name) and isinstance(st.value, ast.Name):
+                div = (st.target.id, st.value.id)
+            elif isinstance(st, ast.Assign) and isinstance(st.value, ast.BinOp) and isinstance(st.value.op, ast.Div) and isinstance(st.value.left, ast.Name) and isinstance(st.value.right, ast.Name) and isinstance(st.targets[0], ast.Name) and st.targets[0].id == st.value.left.id:
+                div = (st.value.left.id, st.value.right.id)
+            if div is None:
+                continue
+            arr, tot = div
+            cons = construct_of(init, f"normalise:{arr}/{tot}")
+            # last definition of the divisor before the division
+            d_idx = None
+            for j in range(i - 1, -1, -1):
+                s2 = stmts[j]
+                if isinstance(s2, ast.Assign) and any(isinstance(t, ast.Name) and t.id == tot for t in s2.targets):
+                    d_idx = j
+                    break
+            if d_idx is None:
+                rep.undecided("C15.5", cons, "definition of the divisor not found", f"{init.path}:{st.lineno}")
+                continue
+            dv = stmts[d_idx].value
+            sums_arr = isinstance(dv, ast.Call) and ((isinstance(dv.func, ast.Attribute) and dv.func.attr == "sum" and isinstance(dv.func.value, ast.Name) and dv.func.value.id == arr) or (isinstance(dv.func, (ast.Name, ast.Attribute)) and (getattr(dv.func, "id", None) or dv.func.attr) == "sum" and dv.args and isinstance(dv.args[0], ast.Name) and dv.args[0].id == arr))
+            reassigned = [s2 for s2 in stmts[d_idx + 1:i] if isinstance(s2, ast.Assign) and any(isinstance(t, ast.Name) and t.id == arr for t in s2.targets)]
+            if not sums_arr:
+                rep.violation("C15.5", cons, f"`{arr}` is divided by `{tot}`, which is not the sum of `{arr}`: the probabilities do not sum to one", f"{init.path}:{st.lineno}")
+            elif reassigned:
+                rep.violation("C15.5", cons, f"`{tot} = {ast.unparse(dv)}` is computed before `{ast.unparse(reassigned[0])}`: the values are divided by the sum of the un-clipped input, so the clipped probabilities do not sum to one", f"{init.path}:{reassigned[0].lineno}")
+            else:
+                rep.ok("C15.5", cons, f"`{tot} = {ast.unparse(dv)}` is the sum of the array as it is when divided", f"{init.path}:{st.lineno}")
+
+    # ------------------------------------------------------------ C15.6
+    rep.rule("C15.6", "the measured-qubit list (the width n of every view) is built from the fundamental registers only", floor=1)
+    for c in ix.classes.values():
+        for aname, lst in c.self_attrs.items():
+            if aname != "qubits" or not c.module.endswith("walkers"):
+                continue
+            for fi, v in lst:
+                if v is None:
+                    continue
+                cons = construct_of(fi, "measured-qubits-source")
+                fl = FuncFlow(ix, T, fi)
+                ids, roots = fl.depends(v)
+                fund = any(isinstance(m, ast.Call) and isinstance(m.func, ast.Attribute) and m.func.attr == "fundamental_registers" for r in roots for m in ast.walk(r)) or any(isinstance(m, ast.Attribute) and m.attr == "fundamental" for r in roots for m in ast.walk(r))
+                allregs = any(isinstance(m, ast.Attribute) and m.attr == "registers" for r in roots for m in ast.walk(r))
+                if fund:
+                    rep.ok("C15.6", cons, "qubits come from circuit.fundamental_registers()", f"{fi.path}:{v.lineno}")
+                elif allregs:
+                    rep.violation("C15.6", cons, f"`{ast.unparse(v)}` counts every entry of circuit.registers, including map aliases: a program with a `map` statement gets more than n measured qubits (strings longer than n characters, more than 2^n outcomes)", f"{fi.path}:{v.lineno}")
+                else:
+                    rep.undecided("C15.6", cons, "source of the measured-qubit list not recognised", f"{fi.path}:{v.lineno}")
+
+    # ------------------------------------------------------------ C15.3 (owner-only writes)
+    owner = None
+    for c in ix.classes.values():
+        if c.module == RESULT and "accept_readout" in c.methods:
+            owner = c
+    if owner is not None:
+        guarded_attrs = {"readouts", "_readouts", "_relative_frequencies", "relative_frequency_by_int"}
+        fam = set(ix.mro(owner.qualname)) | set(ix.subclasses(owner.qualname))
+        for f in ix.functions.values():
+            if f.cls in fam or isinstance(f.node, ast.Lambda):
+                continue
+            for n in walk_no_nested(f.node):
+                hit = None
+                if isinstance(n, ast.Call) and isinstance(n.func, ast.Attribute) and n.func.attr in ("clear", "append", "pop", "remove", "extend", "insert", "fill") and isinstance(n.func.value, ast.Attribute) and n.func.value.attr in guarded_attrs and not (isinstance(n.func.value.value, ast.Name) and f.params and n.func.value.value.id == f.params[0] and f.cls):
+                    hit = n
+                if isinstance(n, (ast.Assign, ast.AugAssign)):
+                    tg = n.targets[0] if isinstance(n, ast.Assign) else n.target
+                    base = tg.value if isinstance(tg, ast.Subscript) else tg
+                    if isinstance(base, ast.Attribute) and base.attr in guarded_attrs and not (isinstance(base.value, ast.Name) and f.params and base.value.id == f.params[0] and f.cls):
+                        hit = n
+                if hit is not None:
+                    rep.violation("C15.3", construct_of(f, "writes-readout-state"), f"`{ast.unparse(hit)[:70]}` changes the readout list or the frequency counters of a subcircuit outside accept_readout(): the two are no longer updated together, so relative frequencies stop being the counts of the recorded readouts", f"{f.path}:{hit.lineno}")
